@@ -10,6 +10,7 @@ nothing to violate must be skipped.
 
 from __future__ import annotations
 
+import json
 import random
 import time
 
@@ -157,6 +158,56 @@ def special_document(rng, kind):
 SPECIALS = ["no_inputs", "empty_body_schema", "string_header_only", "string_path_only", "string_path_plus_int_query", "additional_only_object", "optional_body_only", "string_cookies_only", "string_cookies_plus_int_query", "string_headers_plus_int_query"]
 
 
+def probe_validity_filter(operation, declared, doc, version, emit, rng):
+    """The negative strategy keeps a draw iff the product's own location schema rejects it. That schema is probed with
+    strings which the DECLARED schema accepts: a probe it rejects would be sent labelled as negative although it
+    conforms to the documentation (invariant at the filter, independent of what the random mutations happen to draw)."""
+    import jsonschema
+    from hypothesis import strategies as st
+
+    from schemathesis.generation.hypothesis import examples
+    from schemathesis.specs.openapi._hypothesis import get_schema_for_location
+    from schemathesis.specs.openapi.constants import LOCATION_TO_CONTAINER
+
+    for location in ("query", "header", "cookie", "path"):
+        names = [n for n, (sch, _) in declared[location].items() if isinstance(sch, dict) and sch.get("type") == "string" and "pattern" in sch]
+        if not names:
+            continue
+        try:
+            product = get_schema_for_location(operation, location, getattr(operation, LOCATION_TO_CONTAINER[location]))
+        except Exception:
+            continue
+        for name in names:
+            sub = (product.get("properties") or {}).get(name)
+            sch = declared[location][name][0]
+            if not isinstance(sub, dict) or "$ref" in json.dumps(sub):
+                continue
+            lo, hi = sch.get("minLength", 0), sch.get("maxLength")
+            strategy = st.from_regex(sch["pattern"]).filter(lambda v: len(v) >= lo and (hi is None or len(v) <= hi))
+            probes = set()
+            for _ in range(12):
+                try:
+                    probes.add(examples.generate_one(strategy.filter(lambda v, seen=frozenset(probes): v not in seen)))
+                except Exception:
+                    break
+            for probe in sorted(probes):
+                if location in ("header", "cookie") and (not probe.isascii() or not probe.isprintable() or probe != probe.strip()):
+                    continue
+                if location == "path" and (probe == "" or "/" in probe):
+                    continue
+                if probe.endswith("\n"):
+                    continue  # Python's `$` also matches before a trailing newline, ECMA 262's does not: not judged
+                if not oas_schema.is_valid(probe, sch, doc=doc, version=version, mode="request"):
+                    continue
+                emit.count("filter_probes")
+                try:
+                    accepted = jsonschema.Draft4Validator(sub).is_valid(probe)
+                except Exception:
+                    continue
+                if not accepted:
+                    emit.viol("C02/validity-filter-rejects-a-conforming-value", f"{location}.{name} = {probe!r:.40} conforms to {sch} but the filter schema is {sub}", {"doc": doc})
+
+
 def surely_violable(declared, bodies):
     for location, params in declared.items():
         for name, (schema, required) in params.items():
@@ -217,6 +268,7 @@ def run_shard(spec, emit):
             emit.viol("C02/generated-document-not-loadable", f"{type(exc).__name__}: {exc}"[:300], {"doc": doc})
             continue
         emit.count("operations")
+        probe_validity_filter(operation, declared, doc, version, emit, rng)
         if expectation is None:
             expectation = "cases" if surely_violable(declared, bodies) else "unknown"
         if expectation == "skip":
